@@ -98,3 +98,17 @@ Theorem C15_exact_within_twice_tolerance_partial : forall (c:ccfg) rto gran (rs:
   within_tol 50000 2000 (fx (rc_rto (run (rtt_new rto gran) rs))) (rfc6298_rto c (ref_run None rs)) = true.
 Proof. exact F32Bounds.global_1ms_10s_x2. Qed.
 Print Assumptions C15_exact_within_twice_tolerance_partial.
+
+(* ---- the Rust text of the estimator (rtt.rs: RttCalcuator::new / reset / update / rto), translated by tools/rs2v.py on every
+   run (Generated/Code.v; the f32 constants ALPHA, BETA, 1.0 - ALPHA, 1.0 - BETA, K as f32 folded to binary32 values,
+   Duration::mul_f32 = F32.mul_f32), IS the exact estimator model the theorems above are about, for every state and sample *)
+From Rustun Require Import Base.GRes Generated.Code Proofs.CodeAgreeRtt.
+Theorem C15_code_update_is_model : forall s r, gen_RttCalcuator_update (conv_rtt s) r = GOk (conv_rtt (rtt_update s r)).
+Proof. exact CodeAgreeRtt.gen_rtt_update_agrees. Qed.
+Theorem C15_code_reset_is_model : forall s, gen_RttCalcuator_reset (conv_rtt s) = GOk (conv_rtt (rtt_reset s)).
+Proof. exact CodeAgreeRtt.gen_rtt_reset_agrees. Qed.
+Theorem C15_code_new_is_model : forall rto gran, gen_RttCalcuator_new rto gran = conv_rtt (rtt_new rto gran).
+Proof. exact CodeAgreeRtt.gen_rtt_new_agrees. Qed.
+Print Assumptions C15_code_update_is_model.
+Print Assumptions C15_code_reset_is_model.
+Print Assumptions C15_code_new_is_model.
